@@ -407,6 +407,24 @@ func (v *Verifier) verifyFunc(ctr *Contract, fn *ssa.Function) (err error) {
 	fr.enter(st, fn.Blocks[0], nil)
 	v.pathsPerFn[ctr.Key] = len(outs)
 	v.heapFrame(fr, ctr)
+	// a no-panic claim is an obligation of the function even when every run-time check in it happens
+	// to be syntactically true (otherwise a harmless edit makes the obligation name come and go)
+	if ctr.hasProp(v.prop) {
+		claims := []string{}
+		if ctr.NoPanic {
+			claims = append(claims, "nopanic")
+		}
+		for _, d := range ctr.Defs {
+			if d == "nopanic-bounds" {
+				claims = append(claims, "nopanic-bounds")
+			}
+		}
+		for _, c := range claims {
+			o := &Obligation{Prop: v.prop, Func: v.curFn, Clause: c, Kind: "nopanic", Goal: True, What: "no-panic claim (placeholder instance)"}
+			o.Assumps = append([]*Term{}, fr.entry.pc...)
+			v.obls = append(v.obls, o)
+		}
+	}
 	nret := 0
 	for _, o := range outs {
 		if o.St.dead {
